@@ -27,7 +27,7 @@ ASSUMPTIONS = [
 
 DOCFORMATS = ['epytext', 'restructuredtext', 'google', 'numpy', 'plaintext']
 THEMES = ['classic', 'readthedocs', 'base']
-TESTPKG = '/repo/pydoctor/test/testpackages'
+TESTPKG = (os.environ.get('VERIF_REPO') or '/repo') + '/pydoctor/test/testpackages'
 REAL = ['allgames', 'basic', 'codeininit', 'cyclic_imports', 'cyclic_imports_base_classes', 'importingfrompackage',
         'interfaceallgames', 'interfaceclass', 'multipleinheritance', 'nestedconfusion', 'relativeimporttest',
         'reparented_module', 'reparenting_crash', 'reparenting_crash_alt', 'reparenting_follows_aliases', 'report_trigger',
